@@ -15,6 +15,10 @@
    {"op":"once","d":n}                             clock += n; core.run_once()
    {"op":"run","d":n,"fuel":m}                     core.run() until now + n
    {"op":"jump","fuel":m}                          core.run() until the armed deadline
+   {"op":"mk"}                                     TaskManager()
+   reset with "premgr":true starts WITHOUT a task manager: at / after / bare / rec / suspend /
+   resume / defer / tick act on task._unscheduled_tasks (model `Pre`) until "mk" — or the first
+   "once" — creates the manager and replays the list
    fn = {"id":n,"r":bool,"k":[fn…],"a":[act…]}     ("a" optional; tasks may carry "a" too)
    act = ["at",tid,t] | ["after",tid,d] | ["suspend",tid] | ["stop"] | ["pump"] | ["pump",fuel]
    any request but reset may carry "from":k (restore snapshot k before the
@@ -34,6 +38,7 @@ structure St where
   n : Nat := 0        -- number of tasks (for the digest)
   tpu : Nat := 1
   slots : Array World := #[]   -- snapshots for the depth-first enumeration of histories
+  unsched : Option (List Nat) := none   -- some l: no task manager exists yet, l = _unscheduled_tasks
 
 /-- ["at",tid,t] | ["after",tid,d] | ["suspend",tid] | ["stop"] -/
 def actOfJson (j : Json) : R Act := do
@@ -86,6 +91,9 @@ def digest (s : St) : Json :=
         Json.arr #[Json.num (us s.tpu e.time), Json.num e.seq, Json.num e.tid]).toArray),
     ("flags", Json.arr (ids.map fun i => Json.bool (tm.flag i)).toArray),
     ("ttime", Json.arr (ids.map fun i => jNatOpt ((tm.ttime i).map (us s.tpu))).toArray),
+    ("unsched", match s.unsched with
+        | none => Json.null
+        | some l => Json.arr (l.map fun (i : Nat) => Json.num (i : JsonNumber)).toArray),
     ("trig", Json.bool tm.trig),
     ("running", Json.bool s.w.running),
     ("queue", Json.arr (s.w.queue.map fun f => Json.num f.id).toArray)]
@@ -114,10 +122,43 @@ def handle (s : St) (j : Json) : R (St × Json) := do
       tm := { jitter := tpu },
       recurring := fun i => match specs[i]? with | some (r, _) => r | none => false,
       body := fun i => match specs[i]? with | some (_, b) => b | none => {} }
-    return ({ w := w, n := specs.length, tpu := tpu }, Json.mkObj [("r", "ok")])
+    let pre := match fldOpt j "premgr" with
+      | some (Json.bool true) => some []
+      | _ => none
+    return ({ w := w, n := specs.length, tpu := tpu, unsched := pre }, Json.mkObj [("r", "ok")])
   let tid : R Nat := do
     let t ← fldNat j "t"
     if t < s.n then pure t else throw "no such task"
+  -- before the manager exists
+  if let some us := s.unsched then
+    let pre : Pre := { w := s.w, unsched := us }
+    let pop : Option PreOp ← match op with
+      | "at" => do pure (some (PreOp.installAt (← tid) (← fldNat j "when")))
+      | "after" => do pure (some (PreOp.installAfter (← tid) (← fldNat j "d")))
+      | "bare" => do pure (some (PreOp.installBare (← tid)))
+      | "rec" => do pure (some (PreOp.installRec (← tid) (← optNat j "iv") (← optNat j "off")))
+      | "suspend" => do pure (some (PreOp.suspend (← tid)))
+      | "resume" => do pure (some (PreOp.resume (← tid)))
+      | "defer" => do pure (some (PreOp.defer (← fnOfJson (← fld j "f"))))
+      | "tick" => do pure (some (PreOp.tick (← fldNat j "d")))
+      | "mk" => pure none
+      | "once" => pure none
+      | o => throw s!"{o} before the task manager exists"
+    match pop with
+    | some po =>
+      let p' := pre.step po
+      return reply { s with w := p'.w, unsched := some p'.unsched } none
+    | none =>
+      -- TaskManager() — explicitly, or by the first core.run_once() (the clock has moved by then)
+      if op == "mk" then
+        return reply { s with w := pre.mkManager, unsched := none } none
+      else
+        let w := (pre.step (PreOp.tick (← fldNat j "d"))).mkManager
+        let (w', aux) := w.step (Op.advOnce 0 (fldNatD j "fuel" 1000))
+        return reply { s with w := w', unsched := none } aux
+  if op == "mk" then
+    -- TaskManager() once it exists returns the singleton
+    return reply s none
   let mop : Op ← match op with
     | "at" => do
         let t ← tid
